@@ -33,12 +33,14 @@ def data_layout(P, layout):
     raise ValueError(layout)
 
 
-def body(ctx, conv, shape, bounds, as_coords, layout, nan_cells=None, mesh_opts=None, data_first=False):
+def body(ctx, conv, shape, bounds, as_coords, layout, nan_cells=None, mesh_opts=None, data_first=False, bounds_coords=False):
     pipeline.builders.DATA_FIRST = data_first
+    pipeline.builders.BOUNDS_AS_COORDS = bounds_coords
     try:
         return _body(ctx, conv, shape, bounds, as_coords, layout, nan_cells, mesh_opts)
     finally:
         pipeline.builders.DATA_FIRST = False
+        pipeline.builders.BOUNDS_AS_COORDS = False
 
 
 def _body(ctx, conv, shape, bounds, as_coords, layout, nan_cells=None, mesh_opts=None):
@@ -184,6 +186,11 @@ def cases(tier):
         yield Case(f'{conv}:{shape[0]}x{shape[1]}:{bounds}:vars:plain:datafirst', body,
                    dict(conv=conv, shape=shape, bounds=bounds, as_coords=False, layout='plain', nan_cells=(), data_first=True),
                    patches=P, max_paths=500)
+    # stored bounds held as xarray coordinates
+    for conv, shape in (('cf2d', (2, 2)), ('cf1d', (2, 3)), ('shoc_simple', (2, 2))):
+        yield Case(f'{conv}:{shape[0]}x{shape[1]}:stored:coords:plain:bounds-as-coordinates', body,
+                   dict(conv=conv, shape=shape, bounds='stored', as_coords=True, layout='plain', nan_cells=() if conv == 'cf1d' else None,
+                        bounds_coords=True), patches=P, max_paths=5000, split=16)
     for c in cfgs:
         conv, shape, bounds, as_coords, layout, nan_cells = c
         nm = 'all' if nan_cells is None else len(nan_cells)
